@@ -385,7 +385,7 @@ QUICK_FILES = ["1HMH_1_E.cif", "6INQ.cif", "1DFU_1_M-N.cif", "4WTI_1_T-P.cif", "
 
 def plan(tier, seed):
     if tier == "quick":
-        specs = [{"kind": "lists", "files": QUICK_FILES, "examples": 30, "seed": seed * 1000 + k} for k in range(14)]
+        specs = [{"kind": "lists", "files": QUICK_FILES, "examples": 100, "seed": seed * 1000 + k} for k in range(16)]
         specs += [{"kind": "own", "files": [f]} for f in QUICK_FILES + ["1ehz-assembly-1.cif"]]
     else:
         files = [f for f in corpus.SMALL + corpus.MEDIUM + ["4qln.cif", "6g90_1.cif"] if f != "1gid.cif.gz"]
